@@ -11,6 +11,7 @@ mod mathops;
 mod textgen;
 mod rnggen;
 mod util;
+mod viewergen;
 
 fn main() {
     std::panic::set_hook(Box::new(|_| {}));
@@ -54,6 +55,7 @@ fn main() {
             let args: Vec<f64> = a[3..].iter().map(|s| s.parse().unwrap()).collect();
             partgen::emit_one(op, &args)
         }
+        "viewer" => viewergen::emit(seed, n, a.get(4).and_then(|s| s.parse().ok()).unwrap_or(6)),
         "lookup" => partgen::emit_lookup(),
         "mathone" => {
             let op: i64 = a[2].parse().unwrap();
